@@ -20,7 +20,7 @@ pub const FLOORS: &[&str] = &[
     "trap_known", "trap_unknown", "exit_0xee", "exit_1_stack_off", "input_eof", "through_run_loop", "through_run_loop:run_ended",
     "coincide:jsrr_r7", "coincide:push_r7", "coincide:pop_r7", "coincide:ldr_same",
     "sequence:push_store_pop", "sequence:call_store_rets", "sequence:st_ld_same_address", "sequence:completed",
-    "debugger:reserved_word_with_feature_off", "debugger:step_into_compared", "debugger:step_after_goto", "debugger:step_after_word_under_pc_replaced", "debugger:step_after_reset",
+    "debugger:reserved_word_with_feature_off", "debugger:instruction_given_to_eval", "debugger:step_into_compared", "debugger:step_after_goto", "debugger:step_after_word_under_pc_replaced", "debugger:step_after_reset",
 ];
 
 fn opname(w: u16) -> &'static str {
@@ -956,7 +956,22 @@ fn debugger_case(seed: u64, i: u64) -> CaseOut {
         }
     }
     let mut steps: Vec<usize> = Vec::new();
+    // instructions handed to `eval` (written out as text, executed where the machine stands): line index, word
+    let mut evals: Vec<(usize, u16)> = Vec::new();
     for _ in 0..6 + rng.below(10) {
+        if rng.chance(1, 5) {
+            let (d, a, b) = (rng.below(8) as u16, rng.below(8) as u16, rng.below(8) as u16);
+            let imm = rng.range(-16, 15) as i32;
+            let (text, w) = match rng.below(5) {
+                0 => (format!("add r{} r{} #{}", d, a, imm), 0x1020 | (d << 9) | (a << 6) | (imm as u16 & 0x1F)),
+                1 => (format!("and r{}, r{}, r{}", d, a, b), 0x5000 | (d << 9) | (a << 6) | b),
+                2 => (format!("not r{} r{}", d, a), 0x903F | (d << 9) | (a << 6)),
+                3 => (format!("add r{} r{} r{}", d, a, b), 0x1000 | (d << 9) | (a << 6) | b),
+                _ => (format!("and r{} r{} #{}", d, a, imm), 0x5020 | (d << 9) | (a << 6) | (imm as u16 & 0x1F)),
+            };
+            evals.push((lines.len(), w));
+            lines.push(format!("{} {}", rng.s(&["eval", "e"]), text));
+        }
         match rng.below(7) {
             0 | 1 => lines.push(format!("{} x{:04x}", rng.s(&["goto", "g"]), inside(&mut rng))),
             2 => lines.push(format!("move x{:04x} x{:04x}", inside(&mut rng), plain_word(&mut rng, stack))),
@@ -1106,6 +1121,42 @@ fn debugger_case(seed: u64, i: u64) -> CaseOut {
             break;
         }
         if leaves {
+            break;
+        }
+    }
+    for &(li, w) in &evals {
+        let (Some(before), Some(after)) = (
+            sess.snaps.iter().find(|s| s.commands_read == li),
+            sess.snaps.iter().find(|s| s.commands_read == li + 1),
+        ) else {
+            break;
+        };
+        reference.mem.copy_from_slice(&sess.init_mem[..]);
+        reference.reg = before.reg;
+        reference.cc = before.cc;
+        reference.pc = before.pc;
+        reference.variant = 0;
+        reference.touched = 0;
+        let _ = reference.exec(w);
+        out.class("debugger:instruction_given_to_eval");
+        let why = if after.reg != reference.reg {
+            Some(format!("registers {:04X?}, reference {:04X?}", after.reg, reference.reg))
+        } else if after.cc != reference.cc {
+            Some(format!("CC {:03b}, reference {:03b}", after.cc, reference.cc))
+        } else if after.pc != before.pc {
+            Some(format!("PC x{:04X}, was x{:04X}", after.pc, before.pc))
+        } else if after.mem_diff != before.mem_diff {
+            Some("memory changed".to_string())
+        } else {
+            None
+        };
+        if let Some(why) = why {
+            out.violate(
+                format!("C02/{}/given-to-eval", opname(w)),
+                id,
+                format!("`{}` (word x{:04X}) on registers {:04X?}, CC {:03b}: {}", lines[li], w, before.reg, before.cc, why),
+                J::obj(vec![("source", J::s(&text)), ("script", J::A(lines.iter().map(J::s).collect())), ("command_index", J::I(li as i64))]),
+            );
             break;
         }
     }
